@@ -46,12 +46,14 @@ int vfx_fsk_openat(int dirfd, const char* path) {
 FILE* vfx_fs_fdopen(int fd, const char*) { if (fd != FILEFD || !g_open) vf_fail("env: fdopen on a closed or foreign fd"); return (FILE*)&g_stream; }
 ssize_t vfx_fs_getline(char** line, size_t* len, FILE* fp) {
   if (fp != (FILE*)&g_stream || !g_open) vf_fail("env: getline on a closed or foreign stream");
-  if (g_rderr) { errno = EIO; return -1; }
-  if (g_pos >= H_LEN) return -1;
+  // (the read position advances identically whether or not the read is made to fail: model state that differs between the
+  // two cases would turn the caller's read loop into a symbolic-length loop)
+  if (g_pos >= H_LEN) { if (g_rderr) errno = EIO; return -1; }
   if (*line == nullptr) { *line = (char*)::malloc(H_LEN + 2); *len = H_LEN + 2; }
   char* b = *line; int k = 0;
   for (int i = 0; i < H_LEN; i++) { if (g_pos >= H_LEN) break; char c = g_buf[g_pos++]; b[k++] = c; if (c == '\n') break; }
   b[k] = 0;
+  if (g_rderr) { errno = EIO; return -1; }
   return k;
 }
 int vfx_fs_fclose(FILE* fp) { if (fp != (FILE*)&g_stream || !g_open) vf_fail("env: fclose on a closed or foreign stream (double close)"); g_open = 0; g_nclose++; return 0; }
@@ -73,7 +75,7 @@ ssize_t vfx_fs_fgetxattr(int fd, const char* name, void* value, size_t size) {
 }
 }
 static const char kA[] = "019-max \n";   // class A: every character class of the numeric control files
-static const char kE[] = "01x \npd";      // class E: cgroup.events style content
+static const char kE[] = "01x2p";        // class E: cgroup.events style content (structure - blanks, line breaks - is fixed by the template)
 // reference reading of the file: lines (terminator stripped), as the kernel grammar defines them
 struct Lines { int n; int beg[H_LEN + 1], end[H_LEN + 1]; };
 static Lines split_lines() { Lines L; L.n = 0; int s = 0; for (int i = 0; i < H_LEN; i++) if (g_buf[i] == '\n') { L.beg[L.n] = s; L.end[L.n] = i; L.n++; s = i + 1; } if (s < H_LEN) { L.beg[L.n] = s; L.end[L.n] = H_LEN; L.n++; } return L; }
